@@ -137,7 +137,7 @@ var _ RawRegister64 = ParseTXTBootStatus(0)
 
 // ReadTXTBootStatusRegister reads a txt error status register from TXT config
 func ReadTXTBootStatusRegister(data TXTConfigSpace) (TXTBootStatus, error) {
-	buf := bytes.NewReader(data[TXTBootStatusRegisterOffset:])
+	buf := bytes.NewReader(data.from(TXTBootStatusRegisterOffset))
 	var u64 uint64
 	if err := binary.Read(buf, binary.LittleEndian, &u64); err != nil {
 		return 0, err
